@@ -1370,7 +1370,7 @@ Definition w_tmpl_files : list (bytes * bytes) :=
   [ (B "public/s.private", B "$[x]" ++ [10] ++ B "SECRET-7f3a in a block of a private file" ++ [10] ++ B "$[y]" ++ [10] ++ B "more");
     (B "public/t.html", B "!> tmpl ../public/s.private" ++ [10] ++ B "<html>public page: $[x]</html>");
     (B "templates/main", B "$[title]" ++ [10] ++ B "a template" ++ [10]) ].
-Definition w_tmpl_cfg : gconfig := mkG true false true w_tmpl_files [] [] 500.
+Definition w_tmpl_cfg : gconfig := mkG true false true w_tmpl_files [] [] 500 true [].
 Lemma tmpl_names_guarded_file_refuted_lemma :
   violates (fs_of_tree (tree_of w_tmpl_files)) W_SECRET [w_get (B "/t.html") 2]
            (run_gcfg true true true w_tmpl_cfg [w_get (B "/t.html") 2]).
@@ -1378,4 +1378,211 @@ Proof.
   exists 0%nat. eexists. eexists. eexists.
   split; [reflexivity|]. split; [vm_compute; reflexivity|].
   split; [vm_compute; reflexivity|]. apply permitted_b_false. vm_compute. reflexivity.
+Qed.
+
+(** ---------------------------------------------------------------------------
+    The file cache.  What the layer below the cache computes depends on the files only through what the reads
+    return ... *)
+Section LayerExt.
+  Variable fix_ext fix_lock fix_errline cors : bool.
+  Variable fs1 fs2 : bytes -> option bytes.
+  Variable err1 err2 : N -> bytes.
+  Variable tm1 tm2 : list bytes -> bytes -> bytes.
+  Hypothesis Hfs : forall t, fs1 t = fs2 t.
+  Hypothesis Herr : forall c, err1 c = err2 c.
+  Hypothesis Htm : forall a b, tm1 a b = tm2 a b.
+
+  Lemma error_body_allow_ext code : error_body_allow fix_errline err1 code = error_body_allow fix_errline err2 code.
+  Proof. unfold error_body_allow. rewrite Herr. reflexivity. Qed.
+  Lemma error_body_hide_ext code : error_body_hide fix_errline err1 tm1 code = error_body_hide fix_errline err2 tm2 code.
+  Proof.
+    unfold error_body_hide. rewrite Herr. destruct (line_of (err2 code)) as [p|]; [|reflexivity].
+    destruct (first_tmpl (PresentLine.p_entries p)); [apply Htm | reflexivity].
+  Qed.
+  Lemma step_ext addr st e : step fix_lock fix_errline err1 tm1 addr st e = step fix_lock fix_errline err2 tm2 addr st e.
+  Proof.
+    destruct e as [name args]. unfold step, do_hide, do_allow, do_tmpl.
+    rewrite error_body_hide_ext, error_body_allow_ext, Htm. reflexivity.
+  Qed.
+  Lemma fold_step_ext addr es : forall st,
+    fold_left (step fix_lock fix_errline err1 tm1 addr) es st = fold_left (step fix_lock fix_errline err2 tm2 addr) es st.
+  Proof. induction es as [|e es IH]; intros st; cbn [fold_left]; [reflexivity|]. rewrite step_ext. apply IH. Qed.
+  Lemma present_ext r st :
+    present fix_ext fix_lock fix_errline err1 tm1 r st = present fix_ext fix_lock fix_errline err2 tm2 r st.
+  Proof. unfold present, do_hide. rewrite error_body_hide_ext. apply fold_step_ext. Qed.
+  Lemma layer_b_ext r ov ok :
+    layer_b fix_ext fix_lock fix_errline cors fs1 err1 tm1 r ov ok = layer_b fix_ext fix_lock fix_errline cors fs2 err2 tm2 r ov ok.
+  Proof.
+    unfold layer_b, base, err_pst. rewrite !Herr.
+    destruct (negb ok); [rewrite present_ext; reflexivity|].
+    destruct (served_file (rq_path r)) as [[t|]|e|]; try reflexivity.
+    - rewrite Hfs. destruct (cors && is_cors_fail ov); [rewrite present_ext; reflexivity|].
+      destruct (get_or_head (rq_method r)); [|rewrite present_ext; reflexivity].
+      destruct (fs2 t); rewrite present_ext; reflexivity.
+    - destruct (cors && is_cors_fail ov); rewrite present_ext; reflexivity.
+  Qed.
+End LayerExt.
+
+(** ... the template engine looks at the template files only through what the reads return ... *)
+Section TmplExt.
+  Variable rd1 rd2 : bytes -> option bytes.
+  Hypothesis Hrd : forall p, rd1 p = rd2 p.
+  Lemma resolve_template_ext files name : resolve_template rd1 files name = resolve_template rd2 files name.
+  Proof.
+    induction files as [|f rest IH]; cbn [resolve_template]; [reflexivity|]. rewrite Hrd.
+    destruct (rd2 (TEMPLATES_SLASH ++ f)); [|exact IH].
+    destruct (Templates.extract_templates false b) as [m|e|]; cbn [obind]; try reflexivity.
+    destruct (Templates.t_get name m); [reflexivity | exact IH].
+  Qed.
+  Lemma h_loop_ext (l1 l2 : bytes -> outcome (option bytes)) (Hl : forall k, l1 k = l2 k) file rest : forall pos st,
+    Templates.h_loop l1 file rest pos st = Templates.h_loop l2 file rest pos st.
+  Proof.
+    induction rest as [|byte r IH]; intros pos st; cbn [Templates.h_loop]; [reflexivity|].
+    assert (E : Templates.h_step l1 file pos byte st = Templates.h_step l2 file pos byte st).
+    { unfold Templates.h_step. destruct (Templates.h_placeholder st); [|reflexivity].
+      destruct (negb (Templates.h_esc st =? 1) && (byte =? Templates.c_close)); [|reflexivity].
+      destruct (Templates.placeholder_key file (Templates.h_ps st) pos) as [[k|]|e|]; cbn [obind]; try reflexivity.
+      rewrite Hl. reflexivity. }
+    rewrite E. destruct (Templates.h_step l2 file pos byte st) as [st'|e|]; cbn [obind]; [apply IH | reflexivity | reflexivity].
+  Qed.
+  Lemma tmpl_of_ext args body : tmpl_of rd1 args body = tmpl_of rd2 args body.
+  Proof.
+    unfold tmpl_of, Templates.handle_template.
+    destruct (Templates.skip_ignore_line body) as [file|e|]; cbn [obind]; try reflexivity.
+    rewrite (h_loop_ext (resolve_template rd1 (rev args)) (resolve_template rd2 (rev args)) (resolve_template_ext (rev args))).
+    reflexivity.
+  Qed.
+End TmplExt.
+
+(** ... and filling the file cache from the disk does not change what a read returns. *)
+Lemma fc_fill1_view on disk fc p q : fc_view on disk (fc_fill1 on disk fc p) q = fc_view on disk fc q.
+Proof.
+  unfold fc_fill1, fc_view. destruct on; [|reflexivity].
+  destruct (fc_find p fc) eqn:F; [reflexivity|]. cbn [fc_find].
+  destruct (beq q p) eqn:E; [|reflexivity]. apply beq_eq in E. subst q. rewrite F. reflexivity.
+Qed.
+Lemma fc_fill_view on disk ps : forall fc q, fc_view on disk (fc_fill on disk fc ps) q = fc_view on disk fc q.
+Proof.
+  unfold fc_fill. induction ps as [|p ps IH]; intros fc q; cbn [fold_left]; [reflexivity|].
+  rewrite IH. apply fc_fill1_view.
+Qed.
+
+(** two layers below the same cache that stay in a relation [R] of their states and answer alike *)
+Section RunSim.
+  Variable S1 S2 : Type.
+  Variable compute1 : S1 -> request -> option (bytes * option bytes) -> bool -> fatx * S1 * list bytes.
+  Variable compute2 : S2 -> request -> option (bytes * option bytes) -> bool -> fatx * S2 * list bytes.
+  Variable R : S1 -> S2 -> Prop.
+  Hypothesis Hsim : forall h1 h2 r ov ok, R h1 h2 ->
+    fst (fst (compute1 h1 r ov ok)) = fst (fst (compute2 h2 r ov ok)) /\
+    snd (compute1 h1 r ov ok) = snd (compute2 h2 r ov ok) /\
+    R (snd (fst (compute1 h1 r ov ok))) (snd (fst (compute2 h2 r ov ok))).
+  Variable cache_on ims_on fix_vary fix_ovkey fix_clear fix_svary fix_qmkey fix_ims : bool.
+  Variable sfilter : N -> bool.
+  Variable parse_ims : bytes -> option Z.
+  Variable sanitize_ok : request -> bool.
+  Variable prime : request -> request.
+  Variable override : request -> option (bytes * option bytes).
+  Variable negotiate : request -> fatx -> option (N * bytes).
+  Variable vary_tuple : request -> option (bytes * option bytes) -> tuple.
+  Variable vary_header : request -> option (bytes * option bytes) -> fatx -> list (bytes * bytes).
+  Variable clear_alias : request -> option request.
+
+  (** same cache, same reply, same log, related states *)
+  Definition sim3 (a : (cachex * S1) * replyx * list bytes) (b : (cachex * S2) * replyx * list bytes) : Prop :=
+    fst (fst (fst a)) = fst (fst (fst b)) /\ snd (fst a) = snd (fst b) /\ snd a = snd b /\ R (snd (fst (fst a))) (snd (fst (fst b))).
+
+  Lemma missX_sim c1 h1 h2 now r ov ok : R h1 h2 ->
+    sim3 (missX S1 compute1 cache_on ims_on fix_ovkey fix_svary sfilter negotiate vary_tuple vary_header c1 h1 now r ov ok)
+         (missX S2 compute2 cache_on ims_on fix_ovkey fix_svary sfilter negotiate vary_tuple vary_header c1 h2 now r ov ok).
+  Proof.
+    intros HR. unfold missX. destruct (Hsim h1 h2 r ov ok HR) as (E1 & E2 & E3).
+    destruct (compute1 h1 r ov ok) as [[x1 h1'] lg1]. destruct (compute2 h2 r ov ok) as [[x2 h2'] lg2].
+    cbn [fst snd] in *. subst x2 lg2.
+    destruct (may_store_x cache_on sfilter (rq_method r) x1); unfold sim3; cbn [fst snd]; auto.
+  Qed.
+  Lemma vary_missingX_sim c1 h1 h2 now r ov ok k e : R h1 h2 ->
+    sim3 (vary_missingX S1 compute1 cache_on ims_on fix_vary fix_svary fix_qmkey sfilter negotiate vary_tuple vary_header c1 h1 now r ov ok k e)
+         (vary_missingX S2 compute2 cache_on ims_on fix_vary fix_svary fix_qmkey sfilter negotiate vary_tuple vary_header c1 h2 now r ov ok k e).
+  Proof.
+    intros HR. unfold vary_missingX. destruct (Hsim h1 h2 r ov ok HR) as (E1 & E2 & E3).
+    destruct (compute1 h1 r ov ok) as [[x1 h1'] lg1]. destruct (compute2 h2 r ov ok) as [[x2 h2'] lg2].
+    cbn [fst snd] in *. subst x2 lg2.
+    destruct fix_vary; [destruct (may_store_x cache_on sfilter (rq_method r) x1 && (negb fix_qmkey || qm_key_ok k x1))|];
+      unfold sim3; cbn [fst snd]; auto.
+  Qed.
+  Lemma serveX_sim c h1 h2 now r0 : R h1 h2 ->
+    sim3 (serveX S1 compute1 cache_on ims_on fix_vary fix_ovkey fix_svary fix_qmkey fix_ims sfilter parse_ims sanitize_ok prime override
+                 negotiate vary_tuple vary_header (c, h1) now r0)
+         (serveX S2 compute2 cache_on ims_on fix_vary fix_ovkey fix_svary fix_qmkey fix_ims sfilter parse_ims sanitize_ok prime override
+                 negotiate vary_tuple vary_header (c, h2) now r0).
+  Proof.
+    intros HR. unfold serveX.
+    destruct (negb cache_on).
+    { destruct (Hsim h1 h2 (prime r0) (override r0) (sanitize_ok r0) HR) as (E1 & E2 & E3).
+      destruct (compute1 h1 (prime r0) (override r0) (sanitize_ok r0)) as [[x1 h1'] lg1].
+      destruct (compute2 h2 (prime r0) (override r0) (sanitize_ok r0)) as [[x2 h2'] lg2].
+      cbn [fst snd] in *. subst x2 lg2. unfold sim3; cbn [fst snd]; auto. }
+    destruct (xlookup (lookup_req (prime r0) (override r0)) c now) as [[k found] c1].
+    destruct found as [e|]; [|apply missX_sim, HR].
+    destruct (sanitize_ok r0 && get_or_head (rq_method (prime r0))); [|apply missX_sim, HR].
+    match goal with |- sim3 (if ?b then _ else _) _ => destruct b; [unfold sim3; cbn [fst snd]; auto|] end.
+    destruct (xv_find _ _); [unfold sim3; cbn [fst snd]; auto | apply vary_missingX_sim, HR].
+  Qed.
+  Lemma runX_sim ops : forall c h1 h2 now, R h1 h2 ->
+    runX S1 compute1 cache_on ims_on fix_vary fix_ovkey fix_clear fix_svary fix_qmkey fix_ims sfilter parse_ims sanitize_ok prime
+         override negotiate vary_tuple vary_header clear_alias (c, h1) now ops =
+    runX S2 compute2 cache_on ims_on fix_vary fix_ovkey fix_clear fix_svary fix_qmkey fix_ims sfilter parse_ims sanitize_ok prime
+         override negotiate vary_tuple vary_header clear_alias (c, h2) now ops.
+  Proof.
+    induction ops as [|o ops IH]; intros c h1 h2 now HR; cbn [runX]; [reflexivity|].
+    destruct o as [r|r| |ms]; cbn [stepX].
+    - pose proof (serveX_sim c h1 h2 now r HR) as (Ec & Er & El & HR').
+      destruct (serveX S1 _ _ _ _ _ _ _ _ _ _ _ _ _ _ _ _ (c, h1) now r) as [[[c1' h1'] rp1] lg1].
+      destruct (serveX S2 _ _ _ _ _ _ _ _ _ _ _ _ _ _ _ _ (c, h2) now r) as [[[c2' h2'] rp2] lg2].
+      cbn [fst snd] in *. subst c2' rp2 lg2. f_equal. apply IH, HR'.
+    - f_equal. apply IH, HR.
+    - f_equal. apply IH, HR.
+    - f_equal. apply IH, HR.
+  Qed.
+End RunSim.
+
+(** [file_cache_transparent]: for every initial content of the file cache (also stale and negative entries), file
+    cache on or off, and whatever reads fill it, every history is observed exactly as on the server without file
+    cache whose files are what the server HOLDS for each path: the cache entry if there is one, else the disk. *)
+Lemma file_cache_transparent_lemma :
+  forall fix_ext fix_lock fix_errline cors on disk reads fc0
+         cache_on ims_on fix_ovkey fix_clear fix_svary fix_qmkey fix_ims sfilter parse_ims prime override refuses
+         vary_tuple vary_header clear_alias c now ops,
+    let held := fc_view on disk fc0 in
+    run_gf fix_ext fix_lock fix_errline cors on disk reads fc0 cache_on ims_on fix_ovkey fix_clear fix_svary fix_qmkey fix_ims
+           sfilter parse_ims prime override refuses vary_tuple vary_header clear_alias c now ops =
+    run_g fix_ext fix_lock fix_errline cors (fs_of held) (errpage_of held) (tmpl_of held) cache_on ims_on fix_ovkey fix_clear
+          fix_svary fix_qmkey fix_ims sfilter parse_ims prime override refuses vary_tuple vary_header clear_alias c now ops.
+Proof.
+  intros. unfold run_gf, run_g.
+  apply (runX_sim fcache unit _ _ (fun fc _ => forall q, fc_view on disk fc q = held q)); [|intros q; reflexivity].
+  intros fc [] r ov ok HR. unfold compute_gf, compute_g. cbn [fst snd]. split; [|split; [reflexivity|]].
+  - f_equal. apply layer_b_ext.
+    + intros t. unfold fs_of. apply HR.
+    + intros code. unfold errpage_of. rewrite HR. reflexivity.
+    + intros a b. apply tmpl_of_ext. exact HR.
+  - intros q. rewrite fc_fill_view. apply HR.
+Qed.
+
+(** the property with the file cache in the picture: "content of a file" is the content the server holds for it *)
+Lemma guarded_content_confined_fcache_lemma :
+  forall (fix_errline cors on : bool) (disk : bytes -> option bytes) reads (fc0 : fcache) (secret : bytes),
+    let held := fc_view on disk fc0 in
+    (forall t c, fs_of held t = Some c -> contains_sub secret c = true -> guarded t c = true) ->
+    (forall s, contains_sub secret (errpage_of held s) = false) ->
+    (forall args b, contains_sub secret (tmpl_of held args b) = true -> contains_sub secret b = true) ->
+    (cors = true -> contains_sub secret (ps_body cors_pst) = false) ->
+  forall cache_on ims_on fix_ovkey fix_clear fix_svary fix_qmkey fix_ims sfilter parse_ims prime override refuses
+         vary_tuple vary_header clear_alias now ops,
+    Forall2 (reply_ok (fs_of held) secret prime) ops
+      (run_gf true true fix_errline cors on disk reads fc0 cache_on ims_on fix_ovkey fix_clear fix_svary fix_qmkey fix_ims
+              sfilter parse_ims prime override refuses vary_tuple vary_header clear_alias [] now ops).
+Proof.
+  intros. rewrite file_cache_transparent_lemma. apply guarded_content_confined_lemma; assumption.
 Qed.
